@@ -16,6 +16,8 @@ def run(ctx: Ctx):
     col.floor("g5_pairs", col.counts.get("g5_pairs", 0), 2)
     SC.mode_table(ctx, ["edit_distance", "prefix_edit_distances"], "S2")
     SC.batch_independence(ctx, "S3")
+    # equal costs: the DP runs with unit costs and both result forms are rescaled by the common cost exactly once
+    SC.equal_cost_shortcut(ctx, "S2")
     # normalisation divides by the reference length (not the hypothesis length), in both result forms
     f = pkg.func("_string::_string_matching")
     rel = f.module.relname
@@ -46,6 +48,68 @@ def run(ctx: Ctx):
     col.ob("G16", "S2", f"{rel}::_string_matching::include-eos-adds-one", sorted(u(n.targets[0]) for n in plus) == sorted([HL, RL])
            and all(any(u(t) == "include_eos" and pol for t, pol in guards_of(pm, n)) for n in plus),
            "include_eos does not add exactly one to both the reference and the hypothesis lengths", rel, f.line)
+    # ---- S4 prefix form: the padding value is the last thing written -------------------------------------------
+    from sa.defuse import ReachingDefs
+    from sa.model import AnalysisError
+    rd = ReachingDefs(f.node)
+    LAYOUT = {"t", "transpose", "contiguous", "permute", "clone"}
+    rets = [n for n in own_nodes(f.node) if isinstance(n, ast.Return) and n.value is not None
+            and any(u(t) == "return_prf_dsts" and pol for t, pol in guards_of(pm, n))]
+    if not rets:
+        raise AnalysisError("C01: the per-prefix return of _string_matching was not found")
+    fills, bad = [], []
+
+    def unwind(e, depth=0):
+        if depth > 12:
+            bad.append(e)
+        elif isinstance(e, ast.Name):
+            ds = list(rd.defs_of(e))
+            if not ds:
+                bad.append(e)
+            for d in ds:
+                if d.kind == "assign" and d.value is not None:
+                    unwind(d.value, depth + 1)
+                else:
+                    bad.append(e)
+        elif isinstance(e, ast.Call) and isinstance(e.func, ast.Attribute) and e.func.attr in LAYOUT:
+            unwind(e.func.value, depth + 1)
+        elif isinstance(e, ast.Call) and isinstance(e.func, ast.Attribute) and e.func.attr in ("masked_fill", "masked_fill_") \
+                and len(e.args) == 2 and isinstance(e.args[1], ast.Name) and e.args[1].id == "padding" \
+                and all(d.kind == "param" for d in rd.defs_of(e.args[1])):
+            fills.append(e)
+        else:
+            bad.append(e)
+    for r in rets:
+        unwind(r.value)
+    col.ob("G16", "S4", f"{rel}::_string_matching::prefix-padding-written-last", bool(fills) and not bad,
+           f"between writing the padding value and returning the per-prefix table the value passes through "
+           f"{[u(b)[:60] for b in bad]}: positions past the hypothesis's own length would no longer hold the padding "
+           f"value (only layout operations may follow the fill)", rel, (bad[0].lineno if bad else rets[0].lineno),
+           sample=[u(x)[:100] for x in fills])
+    # the filled positions: prefix index >= hypothesis length (+1 for the full prefix unless it is excluded)
+    okm = bool(fills)
+    for fl in set(fills):
+        m = fl.args[0]
+        cmpc = [c for c in ast.walk(m) if isinstance(c, ast.Call) and isinstance(c.func, ast.Attribute) and c.func.attr in ("ge", "gt", "lt", "le")]
+        cmpo = [c for c in ast.walk(m) if isinstance(c, ast.Compare)]
+        if len(cmpc) + len(cmpo) != 1:
+            okm = False
+            continue
+        if cmpc:
+            op, lhs, rhs = cmpc[0].func.attr, cmpc[0].func.value, cmpc[0].args[0]
+        else:
+            op = {ast.GtE: "ge", ast.Gt: "gt", ast.Lt: "lt", ast.LtE: "le"}.get(type(cmpo[0].ops[0]))
+            lhs, rhs = cmpo[0].left, cmpo[0].comparators[0]
+        has_ar = any(isinstance(c, ast.Call) and call_name(c) == "torch.arange" for c in ast.walk(lhs))
+        from sa.astutil import eval_under_flag
+        if not (op == "ge" and has_ar and isinstance(rhs, ast.BinOp) and isinstance(rhs.op, ast.Add) and u(rhs.left) == HL
+                and eval_under_flag(rhs.right, "exclude_last", True, rd) == 0
+                and eval_under_flag(rhs.right, "exclude_last", False, rd) == 1):
+            okm = False
+    col.ob("G12", "S4", f"{rel}::_string_matching::prefix-padding-positions", okm,
+           f"the padded positions are `{[u(fl.args[0])[:120] for fl in set(fills)]}`; expected prefix index >= "
+           f"hypothesis length + (0 if exclude_last else 1): prefixes 0..len (the full one omitted on request) carry "
+           f"distances and everything past them the padding value", rel, rets[0].lineno)
     plumbing(ctx, "S1")
     return dict(
         explanation=(
@@ -55,9 +119,9 @@ def run(ctx: Ctx):
             "form only for the prefix variant), normalisation divides by the reference length only on request, "
             "include_eos adds one to both lengths; (S3) the kernel's batch-wide reductions only guard warnings and "
             "masked, idempotent updates, so a pair's result cannot depend on the other pairs. NOT decided: that the "
-            "row recurrence equals the Levenshtein minimum, independence from post-eos tokens, prefix padding values."),
-        decided=["S1", "S2", "S3"],
-        not_decided=["DP recurrence == Levenshtein distance", "post-eos independence", "prefix padding positions"],
+            "row recurrence equals the Levenshtein minimum, independence from post-eos tokens. (S4) the per-prefix table is filled with the padding value at prefix index >= hyp_len + (0 if exclude_last else 1) and only layout operations follow the fill."),
+        decided=["S1", "S2", "S3", "S4"],
+        not_decided=["DP recurrence == Levenshtein distance", "post-eos independence"],
         assumptions=["parameter names and docstring tables as oracle"],
     )
 
@@ -66,6 +130,12 @@ def _mutants():
     from selftest.mutate import Mutant as M
     S = "_string.py"
     return [
+        M("scaled-after-padding", S, "return prefix_ers", "return prefix_ers * mult", "prefix-padding-written-last"),
+        M("padding-before-norm", S, "prefix_ers = prefix_ers * mult\n        if norm:", "prefix_ers = prefix_ers.masked_fill(torch.arange(prefix_ers.size(0), device=device).unsqueeze(1).ge(hyp_lens + (0 if exclude_last else 1)), padding) * mult\n        if norm:", "prefix-padding-written-last"),
+        M("full-prefix-always-dropped", S, ".ge(hyp_lens + (0 if exclude_last else 1))", ".ge(hyp_lens)", "prefix-padding-positions"),
+        M("exclude-last-inverted", S, ".ge(hyp_lens + (0 if exclude_last else 1))", ".ge(hyp_lens + (1 if exclude_last else 0))", "prefix-padding-positions"),
+        M("prefix-unscaled", S, "prefix_ers = prefix_ers * mult\n", "", "G"),
+        M("twin:padding-positions-by-int", S, ".ge(hyp_lens + (0 if exclude_last else 1))", ".ge(hyp_lens + (1 - int(exclude_last)))", "", twin=True),
         M("costs-swapped-in-edit-distance", S, "return _string_matching(ref, hyp, eos, include_eos, batch_first, ins_cost, del_cost, sub_cost, warn, norm=norm)",
           "return _string_matching(ref, hyp, eos, include_eos, batch_first, del_cost, ins_cost, sub_cost, warn, norm=norm)", "G"),
         M("module-drops-norm", S, "return edit_distance(ref, hyp, self.eos, self.include_eos, self.norm, self.batch_first, self.ins_cost, self.del_cost, self.sub_cost, self.warn)",
